@@ -112,7 +112,10 @@ def new_env(workdir):
     # the two locks are replaced on the provider INSTANCE (nothing in /repo is touched)
     provider.pre_transaction_lock = S.SchedLock('pre_transaction_lock')
     provider.transaction_lock = S.SchedLock('transaction_lock')
-    env.shared = {}        # actor index -> object published by that actor
+    env.shared = {}        # actor index -> (kind, object, session token) published by that actor
+    env.alive = {}         # actor index -> token of its currently open db_session (absent/None: none open)
+    env.must_rollback = {}
+    env.foreign_src_alive = {}
     env.sched = None
     return env
 
@@ -200,6 +203,36 @@ def _q_children_of(env, p):
 def _q_children_of_lambda(env, p):
     C = env.C
     return C.select(lambda c: c.parent == p)
+
+
+def _q_children_in(env, p, q):
+    from pony.orm import select
+    C = env.C
+    return select(c.id for c in C if c.parent in (p, q))
+
+
+def _q_children_count(env, p):
+    from pony.orm import select
+    C = env.C
+    return select(c for c in C if c.parent == p).count()
+
+
+def _entity_param_query(env, form, p, q=None):
+    """the four query forms that take an entity instance as a parameter (scalar, lambda, inside a list, aggregate);
+    used both with an object of the actor's own session (legitimate; warms the shared SQL cache for exactly the
+    query text / parameter types a later foreign use has) and with a foreign object"""
+    if form == 'scalar':
+        return _rows(_q_children_of(env, p)[:])
+    if form == 'lambda':
+        return sorted(c.id for c in _q_children_of_lambda(env, p))
+    if form == 'list':
+        return _rows(_q_children_in(env, p, q if q is not None else p)[:])
+    if form == 'count':
+        return _q_children_count(env, p)
+    raise ValueError(form)
+
+
+PARAM_FORMS = ['scalar', 'lambda', 'list', 'count']
 
 
 RAW_TEXTS = ['id, s from P where a > $k order by id',
@@ -330,16 +363,32 @@ def op_log_read(env, me, op):
 
 
 def op_publish(env, me, op):
-    """load an object in this actor's session and leave it where other actors can pick it up"""
-    if op['what'] == 'P':
+    """load (or create, unsaved) an object in this actor's session and leave it where other actors can pick it up.
+    A session that created an object is rolled back at its end (see _actor_body): the new row must never become
+    visible to the other actors, whose expected results are those of their solo runs."""
+    what = op['what']
+    if what == 'P':
         obj = env.P[op['id']]
+    elif what == 'newP':
+        obj = env.P(id=90 + me, s='fresh', a=9, b='none')      # not flushed: no primary key in the database yet
+        env.must_rollback[me] = True
+        what = 'P'
     else:
         obj = env.C[op['id']]
-    env.shared[me] = (op['what'], obj)
+    env.shared[me] = (what, obj, env.alive.get(me))
     return {'published': op['what']}
 
 
-FOREIGN_MODES_P = ['query_param', 'lambda_param', 'kw_filter', 'get_kw', 'exists_kw', 'assign', 'set', 'create', 'load']
+def op_own_param(env, me, op):
+    """an entity instance of the actor's OWN session as a query parameter: legitimate, equal to the solo run"""
+    p = env.P[op['id']]
+    # no last_sql observation here: a foreign object that was (wrongly, open finding) accepted earlier in this session
+    # leaves the same SQL + key in the session's query cache, and the solo run has no such earlier query
+    return {'r': _entity_param_query(env, op['form'], p, env.P[1])}
+
+
+QUERY_PARAM_MODES = {'query_param': 'scalar', 'lambda_param': 'lambda', 'list_param': 'list', 'count_param': 'count'}
+FOREIGN_MODES_P = ['query_param', 'lambda_param', 'list_param', 'count_param', 'kw_filter', 'get_kw', 'exists_kw', 'assign', 'set', 'create', 'load']
 FOREIGN_MODES_C = ['coll_add', 'coll_remove', 'coll_contains', 'load']
 
 
@@ -349,14 +398,15 @@ def op_foreign(env, me, op):
     item = env.shared.get(op['src'])
     if item is None or op['src'] == me:
         return {'skipped': True}
-    what, obj = item
+    what, obj, pub_session = item
     mode = op['mode']
     P, C = env.P, env.C
+    if (what == 'P' and mode in FOREIGN_MODES_P) or (what == 'C' and mode in FOREIGN_MODES_C):
+        # is the db_session in which the object was published still open in its thread right now?
+        env.foreign_src_alive[me] = pub_session if (pub_session is not None and env.alive.get(op['src']) == pub_session) else None
     if what == 'P' and mode in FOREIGN_MODES_P:
-        if mode == 'query_param':
-            r = _rows(_q_children_of(env, obj)[:])
-        elif mode == 'lambda_param':
-            r = sorted(c.id for c in _q_children_of_lambda(env, obj))
+        if mode in QUERY_PARAM_MODES:
+            r = _entity_param_query(env, QUERY_PARAM_MODES[mode], obj, P[1] if mode == 'list_param' else None)
         elif mode == 'kw_filter':
             r = sorted(c.id for c in C.select().filter(parent=obj))
         elif mode == 'get_kw':
@@ -398,6 +448,7 @@ OPS = {
     'chain': op_chain, 'where_getattr': op_where_getattr, 'kw': op_kw, 'raw': op_raw, 'rawfrag': op_rawfrag,
     'get': op_get, 'children': op_children, 'count': op_count, 'log_insert': op_log_insert,
     'db_insert': op_db_insert, 'log_read': op_log_read, 'publish': op_publish, 'foreign': op_foreign,
+    'own_param': op_own_param,
 }
 PINNED_OPS = ('slice_gen', 'slice_str', 'slice2_gen', 'slice_ent', 'getattr_gen', 'getattr_str', 'chain', 'where_getattr')
 WRITE_OPS = ('log_insert', 'db_insert')
@@ -409,7 +460,8 @@ WRITE_OPS = ('log_insert', 'db_insert')
 ACCESS_RE = re.compile(
     r'_translator_cache|_constructed_sql_cache|_insert_cache|adapted_sql_cache|string2ast_cache|extractors_cache'
     r'|ast_cache|lambda_args_cache|raw_sql_cache|query_results|_sql_cache_|cached_load_sql'
-    r'|cached_[a-z0-9_]+_sql|_cached_max_id_sql_|fixed_param_values|func_extractors_map')
+    r'|cached_[a-z0-9_]+_sql|_cached_max_id_sql_|fixed_param_values|func_extractors_map'
+    r'|\blocal\.translators?\b')
 
 _codes_memo = {}
 
@@ -429,7 +481,16 @@ def traced_functions():
         core.Query._process_lambda, core.Query._apply_kwargs, core.Query._order_by, core.Query._actual_fetch,
         utils.get_lambda_args, ormtypes.parse_raw_sql,
         core.Database.insert, E._save_created_, core.EntityMeta._construct_sql_, core.EntityMeta._construct_batchload_sql_,
-    ]
+    ] + translation_stack_functions()
+
+
+def translation_stack_functions():
+    """per-thread state of a translation IN PROGRESS (sqltranslation.local.translators, the stack every new monad binds
+    itself to): two threads that both missed the translator cache translate at the same time, so hand-overs must also
+    be possible while a translator is being built, not only at the cache get/set points around it"""
+    from pony.orm import sqltranslation as T
+    return [T.SQLTranslator.__init__, T.SQLTranslator.init, T.SQLTranslator.__enter__, T.SQLTranslator.__exit__,
+            T.Monad.__init__]
 
 
 def _unwrap(f):
@@ -451,6 +512,8 @@ def traced_codes(mode):
     # SQLite's own lock waits are not modelled, so this function yields only at its query_results lines (before the
     # statement is sent / after everything is fetched) in both modes.
     access_only = {_unwrap(core.Query._actual_fetch).__code__}
+    # the translator classes run long loops: they yield only where the translation stack is touched, in both modes
+    access_only.update(_unwrap(f).__code__ for f in translation_stack_functions())
     codes = {}
     for f in traced_functions():
         code = _unwrap(f).__code__
@@ -517,10 +580,17 @@ def _outcome_of_error(e):
 
 
 def _run_op(env, me, op):
+    env.foreign_src_alive.pop(me, None)
     try:
-        return {'ok': OPS[op['op']](env, me, op)}
+        out = {'ok': OPS[op['op']](env, me, op)}
     except Exception as e:
-        return _outcome_of_error(e)
+        out = _outcome_of_error(e)
+    if me in env.foreign_src_alive:
+        # "still open" = open when the operation started AND still the same open session when it ended: a session that
+        # ended while this operation was pre-empted may have been over already when Pony looked at the object
+        token = env.foreign_src_alive.pop(me)
+        out['src_alive'] = token is not None and env.alive.get(op['src']) == token
+    return out
 
 
 def _actor_body(env, sessions, out):
@@ -531,11 +601,18 @@ def _actor_body(env, sessions, out):
         for si, ops in enumerate(sessions):
             sched.point('session-begin')
             try:
-                with db_session:
-                    for oi, op in enumerate(ops):
-                        sched.point('op')
-                        out.append([si, oi, _run_op(env, me, op)])
-                    sched.point('session-end')
+                try:
+                    with db_session:
+                        env.alive[me] = (me, si)
+                        for oi, op in enumerate(ops):
+                            sched.point('op')
+                            out.append([si, oi, _run_op(env, me, op)])
+                        sched.point('session-end')
+                        if env.must_rollback.pop(me, False):
+                            from pony.orm import rollback
+                            rollback()
+                finally:
+                    env.alive[me] = None
                 out.append([si, 'end', {'ok': 'committed'}])
             except Exception as e:
                 out.append([si, 'end', _outcome_of_error(e)])
@@ -553,6 +630,7 @@ def _run_setup(env, setup):
     if sched.deadlocked:
         raise RuntimeError('deadlock in the setup phase: %r' % sched.deadlocked)
     env.shared.clear()
+    env.alive.clear()
     return out
 
 
@@ -621,6 +699,7 @@ def judge(workdir, case):
     for name in info['locks_left']:
         mismatches.append({'kind': 'lock_left_locked', 'actor': -1, 'error': '', 'at': '', 'detail': name})
     foreign_checked = 0
+    foreign_live_qp = 0
     for i, sessions in enumerate(actors):
         solo = run_solo(workdir, setup, sessions, i, len(actors))
         got = outs[i]
@@ -635,6 +714,8 @@ def judge(workdir, case):
                 if isinstance(ok, dict) and ok.get('skipped'):
                     continue                   # nothing published yet: nothing to assert
                 foreign_checked += 1
+                if oc.get('src_alive') and op['mode'] in QUERY_PARAM_MODES:
+                    foreign_live_qp += 1
                 if 'err' in oc and oc.get('txn_family'):
                     continue                   # rejected with a TransactionError: what the property demands
                 if 'err' in oc:
@@ -642,8 +723,10 @@ def judge(workdir, case):
                                        'op': op, 'error': oc['err'], 'at': oc.get('at', ''), 'detail': oc['msg']})
                 else:
                     mismatches.append({'kind': 'foreign_accepted', 'actor': i, 'session': si, 'op_index': oi,
-                                       'op': op, 'mode': op['mode'], 'error': '', 'at': '',
-                                       'detail': 'object of actor %d\'s session was accepted: %r' % (op['src'], ok)})
+                                       'op': op, 'mode': op['mode'], 'src_alive': bool(oc.get('src_alive')),
+                                       'error': '', 'at': '',
+                                       'detail': 'object of actor %d\'s %s session was accepted: %r'
+                                                 % (op['src'], 'still open' if oc.get('src_alive') else 'finished', ok)})
                 continue
             if _strip(oc) != _strip(so):
                 kind = 'spurious_error' if ('err' in oc and 'ok' in so) else \
@@ -654,6 +737,7 @@ def judge(workdir, case):
                                    'detail': 'interleaved: %s; alone: %s' % (json.dumps(_strip(oc), default=repr)[:600],
                                                                              json.dumps(_strip(so), default=repr)[:600])})
     info['foreign_checked'] = foreign_checked
+    info['foreign_live_query_param'] = foreign_live_qp
     return mismatches, info
 
 
